@@ -1,0 +1,45 @@
+//go:build verif
+
+package node
+
+import (
+	"io"
+
+	"github.com/paulsonkoly/calc/vm"
+)
+
+// Verification hooks (build tag verif): exported entry points to the unexported read-eval helpers.
+
+// VerifReportError calls reportError.
+func VerifReportError(err ParserError, line string) { reportError(err, line) }
+
+// VerifProcessInput calls processInput.
+func VerifProcessInput(input string, p Parser, vm *vm.Type, doOut bool) {
+	processInput(input, p, vm, doOut)
+}
+
+// VerifLineReader is a lineReader fed from a slice of lines (each returned as read() would: with its newline).
+type VerifLineReader struct {
+	Lines []string
+	pos   *int
+}
+
+// NewVerifLineReader returns a reader over lines.
+func NewVerifLineReader(lines []string) VerifLineReader {
+	return VerifLineReader{Lines: lines, pos: new(int)}
+}
+
+func (v VerifLineReader) read() (string, error) {
+	if *v.pos >= len(v.Lines) {
+		return "", io.EOF
+	}
+	l := v.Lines[*v.pos]
+	*v.pos++
+	return l, nil
+}
+
+// Close implements io.Closer.
+func (v VerifLineReader) Close() error { return nil }
+
+// VerifLoop runs Loop over an in-memory reader.
+func VerifLoop(r VerifLineReader, p Parser, vm *vm.Type, doOut bool) { Loop(r, p, vm, doOut) }
